@@ -103,6 +103,13 @@ let () = iter_lines (fun line ->
           done;
           Buffer.add_string buf ";" end
       done;
+      (* the modelled HashSet::Find (TableO2.find over the generated Bucket::Find) for every key *)
+      Buffer.add_string buf " F:";
+      List.iter (fun k ->
+        match TableO2.find tnew (z_of_string nl) k (hash k) with
+        | Ok (Some (b, s)) -> Buffer.add_string buf (string_of_z b ^ "." ^ string_of_z s ^ ",")
+        | Ok None -> Buffer.add_string buf "-,"
+        | _ -> Buffer.add_string buf "?,") keys;
       print_endline (Buffer.contents buf) in
     let natural = (budget = -2) in
     let nkeys = List.length keys in
